@@ -206,6 +206,55 @@ def check_roundtrip(rng, rec):
     return spec
 
 
+def check_spec_roundtrip(rng, rec):
+    """(A') parameter sets written as a yml / list specification (default-option blocks, per-entry overrides, nested groups;
+    generator and expectation of C16): what reaches the optimiser is exactly what the SPECIFICATION declares free, with the
+    declared bounds; fixed and expression entries stay out."""
+    from glotaran.io import load_parameters
+    from vf.props import c16
+
+    text, expected, is_list = c16.gen_yml(rng)
+    ctx = {"yml": text, "expected": expected}
+    if any(e.get("non_negative") and (e.get("value", 1.0) <= 0 or e.get("maximum", 1.0) <= 0 or e.get("value", 1.0) > e.get("maximum", math.inf)) for e in expected) \
+            or any(e.get("minimum", -math.inf) > e.get("maximum", math.inf) for e in expected):
+        rec.skip("generated specification is not a valid parameter set (non-negative with non-positive value / empty box)")
+        return
+    try:
+        p = load_parameters(text, format_name="yml_str")
+    except Exception as e:  # noqa
+        rec.skip(f"specification not loadable ({type(e).__name__}): judged by C16")
+        return
+    rec.count("specification_sets_checked")
+    want_free = [e["label"] for e in expected if e.get("vary", True) is not False and "expression" not in e]
+    try:
+        labels, x, lo, hi = p.get_label_value_and_bounds_arrays(exclude_non_vary=True)
+    except Exception as e:  # noqa
+        rec.skip(f"optimiser vector not available ({type(e).__name__})")
+        return
+    if sorted(labels) != sorted(want_free):
+        rec.violation("spec:free-labels", ctx, f"optimiser receives {sorted(labels)}, the specification declares free {sorted(want_free)}")
+        return
+    exp = {e["label"]: e for e in expected}
+    for l, xv, a, b in zip(labels, x, lo, hi):
+        e = exp[l]
+        mn, mx = e.get("minimum", -math.inf), e.get("maximum", math.inf)
+        if e.get("non_negative"):
+            if not e["value"] > 0:
+                continue
+            mn = math.log(mn) if math.isfinite(mn) and mn > 0 else (-math.inf if mn <= 0 else mn)
+            mx = math.log(mx) if math.isfinite(mx) and mx > 0 else mx
+            val = math.log(e["value"]) if e["value"] != 1 else math.log(1 + 1e-10)
+        else:
+            val = e["value"]
+        okb = all(u == v or abs(u - v) <= 1e-9 * max(1.0, abs(v)) for u, v in ((a, mn), (b, mx)))
+        if not okb:
+            rec.violation("spec:bounds-array", ctx, f"{l}: optimiser bounds ({a}, {b}), the specification declares ({e.get('minimum')}, {e.get('maximum')}), non_negative={e.get('non_negative', False)}")
+            return
+        if not (xv == val or abs(xv - val) <= 1e-9 * max(1e-300, abs(val))):
+            rec.violation("spec:value-array", ctx, f"{l}: optimiser value {xv}, the specification declares {e['value']} (non_negative={e.get('non_negative', False)})")
+            return
+
+
 # ---------------------------------------------------------------- (B) optimisations
 def decorate_parameters(case, rng, method):
     """Give the free parameters of a scheme case bounds / flags / expressions."""
@@ -485,6 +534,8 @@ def run_shard(spec, rec):
     rng = rng_for(spec)
     S.model_class()
     for i in range(spec["nrt"]):
+        if i % 4 == 0:
+            check_spec_roundtrip(rng, rec)
         sp = check_roundtrip(rng, rec)
         kinds = tuple(sorted({s["kind"] for s in sp}))
         rec.case(("rt", kinds), len(kinds) >= 2 and any(k in kinds for k in ("nonneg", "bounded", "nonneg_bounded", "lower", "upper")),
